@@ -29,6 +29,7 @@ inductive SObj where
   | arr (items : List SObj)           -- Python list: array or procedure
   | dict (entries : List (Bytes × SObj))   -- Python dict in insertion order
   | ref (objid : Int)
+  | stream (attrs : List (Bytes × SObj)) (data : Bytes)   -- PDFStream(attrs, rawdata)
   deriving Repr, Inhabited
 
 inductive Ctx where
@@ -280,6 +281,7 @@ def SObj.show : SObj → String
   | .arr items => "[ " ++ showItems items ++ "]"
   | .dict es => "<< " ++ String.join ((showEntries es).map (fun e => "n:" ++ hexOrDash e.1 ++ " " ++ e.2 ++ " ")) ++ ">>"
   | .ref n => "R:" ++ toString n
+  | .stream es d => "S:<< " ++ String.join ((showEntries es).map (fun e => "n:" ++ hexOrDash e.1 ++ " " ++ e.2 ++ " ")) ++ ">> " ++ hexOrDash d
 
 def showItems : List SObj → String
   | [] => ""
